@@ -7,6 +7,7 @@
     matcher, [mt_args] the FlatMap of entries in insertion order ([fm_get] = first match). *)
 From ClapModel Require Import Base.Bytes Base.Machine Base.Utf8 Lex.OsStrExtModel.
 From ClapModel Require Import Parse.Cmd Parse.Build Parse.Valid Parse.Matcher Parse.Errors Parse.Validator Parse.Parser.
+From ClapModel Require Import Sources.Present.
 From Coq Require Import ZArith Lia.
 From RecordUpdate Require Import RecordSet.
 Import RecordSetNotations.
@@ -912,3 +913,314 @@ Theorem add_env_frame c st st' :
         (forall a, In a (c_args c) -> a_id a = j -> a_env a = None) ->
         fm_get j (mt_args (mt st')) = None).
 Proof. intros Hp H. rewrite add_env_unfold in H. exact (add_env_fold_spec c _ _ _ Hp H). Qed.
+
+(** * 6. Values that came from defaults are invisible to the validator *)
+
+Lemma fold_left_ext {A B} (f g : A -> B -> A) l : forall a,
+  (forall x y, f x y = g x y) -> fold_left f l a = fold_left g l a.
+Proof. induction l as [|h t IH]; intros a H; [reflexivity|]. cbn. rewrite H. apply IH. exact H. Qed.
+Lemma existsb_pw {A} (f g : A -> bool) l : (forall x, f x = g x) -> existsb f l = existsb g l.
+Proof. intros H. induction l as [|h t IH]; [reflexivity|]. cbn. rewrite H, IH. reflexivity. Qed.
+Lemma forallb_pw {A} (f g : A -> bool) l : (forall x, f x = g x) -> forallb f l = forallb g l.
+Proof. intros H. induction l as [|h t IH]; [reflexivity|]. cbn. rewrite H, IH. reflexivity. Qed.
+
+(** two matchers the validator cannot tell apart *)
+Definition vequiv (m m' : matcher) : Prop :=
+  explicit_entries m = explicit_entries m' /\ mt_sub m = mt_sub m'
+  /\ forall i p, check_explicit m i p = check_explicit m' i p.
+
+Lemma fails_unless_equiv m m' a :
+  (forall i p, check_explicit m i p = check_explicit m' i p) ->
+  fails_arg_required_unless m a = fails_arg_required_unless m' a.
+Proof.
+  intros H. unfold fails_arg_required_unless.
+  rewrite (forallb_pw _ (fun i => check_explicit m' i PIsPresent) (a_r_unless_all a)) by (intros; apply H).
+  rewrite (existsb_pw _ (fun i => check_explicit m' i PIsPresent) (a_r_unless a)) by (intros; apply H).
+  reflexivity.
+Qed.
+
+Lemma missing_required_equiv c m m' pot : vequiv m m' -> missing_required c m pot = missing_required c m' pot.
+Proof.
+  intros [He [_ Hc]]. unfold missing_required, gather_requires. rewrite He.
+  destruct (fold_left _ (explicit_entries m') (Some (required_graph c))) as [required|]; [|reflexivity].
+  match goal with |- match ?X with _ => _ end = match ?Y with _ => _ end => assert (EXY : X = Y) end.
+  { apply fold_left_ext. intros acc aog. destruct acc as [[missing highest]|]; [|reflexivity].
+    rewrite Hc. destruct (check_explicit m' aog PIsPresent); [reflexivity|].
+    destruct (find_arg c aog); [reflexivity|]. destruct (find_group c aog); [|reflexivity].
+    destruct (unroll_args_in_group c (g_id g)); [|reflexivity].
+    rewrite (existsb_pw _ (fun x => check_explicit m' x PIsPresent) l) by (intros; apply Hc). reflexivity. }
+  rewrite EXY. clear EXY.
+  match goal with |- match ?Y with _ => _ end = _ => destruct Y as [[missing highest]|]; [|reflexivity] end.
+  match goal with |- (let '(_, _) := ?X in _) = (let '(_, _) := ?Y in _) => assert (EXY : X = Y) end.
+  { apply fold_left_ext. intros [ms hi] a. rewrite Hc.
+    rewrite (existsb_pw _ (fun r => check_explicit m' (fst r) (PEquals (snd r))) (a_r_ifs a)) by (intros; apply Hc).
+    rewrite (forallb_pw _ (fun r => check_explicit m' (fst r) (PEquals (snd r))) (a_r_ifs_all a)) by (intros; apply Hc).
+    rewrite (fails_unless_equiv m m' a Hc). reflexivity. }
+  rewrite EXY. clear EXY.
+  match goal with |- (let '(_, _) := ?Y in _) = _ => destruct Y as [missing2 highest2] end.
+  destruct (negb (is_set s_allow_missing_pos c)); [|reflexivity].
+  f_equal. apply fold_left_ext. intros ms p. rewrite Hc. reflexivity.
+Qed.
+
+Theorem validate_equiv c m m' : vequiv m m' -> validate c m = validate c m'.
+Proof.
+  intros Hv. pose proof Hv as [He [Hs Hc]].
+  unfold validate, conflicts_with_args, validate_conflicts, validate_exclusive.
+  rewrite He, Hs, (missing_required_equiv c m m' _ Hv) || rewrite He, Hs.
+  destruct (fold_right _ (Some []) (explicit_entries m')) as [pot|]; [|reflexivity].
+  rewrite (missing_required_equiv c m m' pot Hv). reflexivity.
+Qed.
+
+Definition is_default_entry (p : id * marg) : Prop := m_source (snd p) = Some SDefault.
+
+Lemma check_explicit_m_default p e : m_source e = Some SDefault -> check_explicit_m p e = false.
+Proof. intros H. unfold check_explicit_m. rewrite H. reflexivity. Qed.
+
+Lemma fm_get_all_default k news e :
+  Forall is_default_entry news -> fm_get k news = Some e -> m_source e = Some SDefault.
+Proof.
+  induction news as [|[k0 e0] t IH]; intros F; [discriminate|]. inversion F; subst. cbn [fm_get].
+  destruct (beq k0 k); [intros H; inversion H; subst; exact H1 | apply IH; exact H2].
+Qed.
+
+(** appending entries labelled [DefaultValue] to a matcher is invisible to the validator *)
+Lemma vequiv_app_defaults m m' news :
+  mt_args m' = mt_args m ++ news -> mt_sub m' = mt_sub m -> Forall is_default_entry news -> vequiv m m'.
+Proof.
+  intros A S F. unfold vequiv. split; [|split].
+  - unfold explicit_entries. rewrite A, filter_app.
+    assert (E : filter (fun p => check_explicit_m PIsPresent (snd p)) news = []).
+    { clear A. induction news as [|p t IH]; [reflexivity|]. inversion F; subst. cbn [filter].
+      rewrite (check_explicit_m_default _ _ H1). apply IH. exact H2. }
+    rewrite E, app_nil_r. reflexivity.
+  - symmetry. exact S.
+  - intros i p. unfold check_explicit. rewrite A, fm_get_app.
+    destruct (fm_get i (mt_args m)) as [e|]; [reflexivity|].
+    destruct (fm_get i news) as [e|] eqn:G; [|reflexivity].
+    rewrite (check_explicit_m_default p e (fm_get_all_default _ _ _ F G)). reflexivity.
+Qed.
+
+(** the validator gives the same verdict before and after the defaults phase: values that came
+    from defaults trigger no conflict, no requirement, no "arguments present" logic — and satisfy none *)
+Theorem defaults_inert c st st' :
+  mt_pending (mt st) = None -> add_defaults c st = ROk st' ->
+  validate c (mt st') = validate c (mt st)
+  /\ explicit_entries (mt st') = explicit_entries (mt st)
+  /\ (forall i p, check_explicit (mt st') i p = check_explicit (mt st) i p).
+Proof.
+  intros Hp H. destruct (add_defaults_frame c st st' Hp H) as [_ [S [[news [A F]] _]]].
+  assert (Hv : vequiv (mt st) (mt st')).
+  { apply (vequiv_app_defaults _ _ news A S). eapply Forall_impl; [|exact F]. intros p [Hs _]. exact Hs. }
+  split; [symmetry; apply validate_equiv; exact Hv|]. destruct Hv as [He [_ Hc]].
+  split; [symmetry; exact He | intros i p; symmetry; apply Hc].
+Qed.
+
+(** the general form: dropping every [DefaultValue] entry from a matcher with distinct keys *)
+Definition is_default_b (p : id * marg) : bool :=
+  match m_source (snd p) with Some SDefault => true | _ => false end.
+Definition drop_defaults (m : matcher) : matcher :=
+  m <| mt_args := filter (fun p => negb (is_default_b p)) (mt_args m) |>.
+
+Lemma fm_get_none_notin {V} k (l : list (id * V)) : ~ In k (map fst l) -> fm_get k l = None.
+Proof.
+  induction l as [|[k0 v] t IH]; [reflexivity|]. cbn [map fst fm_get In]. intros H.
+  destruct (beq k0 k) eqn:E; [apply beq_eq in E; subst; exfalso; apply H; left; reflexivity|].
+  apply IH. intros Hin. apply H. right. exact Hin.
+Qed.
+
+Lemma fm_get_filter_nodup {V} (g : id * V -> bool) k : forall (l : list (id * V)),
+  NoDup (map fst l) ->
+  fm_get k (filter g l) = match fm_get k l with Some v => if g (k, v) then Some v else None | None => None end.
+Proof.
+  induction l as [|[k0 v] t IH]; intros Hnd; [reflexivity|]. cbn [map fst] in Hnd. inversion Hnd; subst.
+  cbn [filter fm_get]. destruct (beq k0 k) eqn:E.
+  - apply beq_eq in E. subst k0. destruct (g (k, v)).
+    + cbn [fm_get]. rewrite beq_refl. reflexivity.
+    + rewrite (IH H2). rewrite (fm_get_none_notin k t H1). reflexivity.
+  - destruct (g (k0, v)); [cbn [fm_get]; rewrite E|]; apply IH; exact H2.
+Qed.
+
+Theorem validate_drop_defaults c m :
+  NoDup (map fst (mt_args m)) -> validate c (drop_defaults m) = validate c m.
+Proof.
+  intros Hnd. symmetry. apply validate_equiv. unfold vequiv. split; [|split].
+  - unfold explicit_entries, drop_defaults. cbn.
+    induction (mt_args m) as [|p t IH]; [reflexivity|]. cbn [filter map fst] in *. inversion Hnd; subst.
+    destruct (check_explicit_m PIsPresent (snd p)) eqn:Ec.
+    + assert (Hd : is_default_b p = false).
+      { unfold is_default_b. unfold check_explicit_m in Ec. destruct (m_source (snd p)) as [[]|]; try reflexivity. discriminate. }
+      rewrite Hd. cbn [negb filter]. rewrite Ec. f_equal. apply IH. exact H2.
+    + destruct (negb (is_default_b p)); [cbn [filter]; rewrite Ec|]; apply IH; exact H2.
+  - reflexivity.
+  - intros i p. unfold check_explicit, drop_defaults. cbn. rewrite (fm_get_filter_nodup _ i _ Hnd).
+    destruct (fm_get i (mt_args m)) as [e|]; [|reflexivity].
+    unfold is_default_b. cbn [snd]. destruct (m_source e) as [[]|] eqn:Es; cbn [negb]; try reflexivity.
+    apply check_explicit_m_default. exact Es.
+Qed.
+
+(** [ArgMatches::args_present] sees exactly the validator's explicit entries (when every entry
+    carries a source, which every writer guarantees), hence no default *)
+Lemma args_present_explicit m :
+  (forall p, In p (mt_args m) -> m_source (snd p) <> None) ->
+  args_present (into_inner m) = negb (is_nil (explicit_entries m)).
+Proof.
+  unfold args_present, into_inner, explicit_entries. cbn [ms_args].
+  induction (mt_args m) as [|p t IH]; intros Hsrc; [reflexivity|]. cbn [existsb filter].
+  assert (E : marg_explicit (snd p) = check_explicit_m PIsPresent (snd p)).
+  { unfold marg_explicit, check_explicit_m. specialize (Hsrc p (or_introl eq_refl)).
+    destruct (m_source (snd p)) as [[]|]; try reflexivity. contradiction. }
+  rewrite E. destruct (check_explicit_m PIsPresent (snd p)); [reflexivity|].
+  apply IH. intros q Hq. apply Hsrc. right. exact Hq.
+Qed.
+
+Theorem args_present_ignores_defaults c st st' :
+  mt_pending (mt st) = None -> add_defaults c st = ROk st' ->
+  args_present (into_inner (mt st')) = args_present (into_inner (mt st)).
+Proof.
+  intros Hp H. destruct (add_defaults_frame c st st' Hp H) as [_ [_ [[news [A F]] _]]].
+  unfold args_present, into_inner. cbn [ms_args]. rewrite A, existsb_app.
+  assert (E : existsb (fun p => marg_explicit (snd p)) news = false).
+  { clear A. induction news as [|p t IH]; [reflexivity|]. inversion F; subst. cbn [existsb].
+    destruct H2 as [Hs _]. unfold marg_explicit at 1. rewrite Hs. cbn. apply IH. exact H3. }
+  rewrite E, orb_false_r. reflexivity.
+Qed.
+
+(** * 7. Phase order of [get_matches_with] *)
+
+(** the command-line phase: the token loop and the dispatch into a subcommand (a verbatim copy of
+    the [parsed] block of [Parser.get_matches_with]; [get_matches_with_unfold] is proved by
+    [reflexivity]) *)
+Definition cmdline_phase (fuel' : nat) (c : cmd) (toks : list bytes) (st0 : ps) : res ps :=
+  do lr <- parse_loop c toks (mkL PSValuesDone 1 false false) st0;
+  let after_sub (name : bytes) (keep_state vaf : bool) (st : ps) (rest : list bytes) : res ps :=
+    if is_set s_args_negate_subs c && vaf then
+      RErr (mkerr c EArgumentConflict name) st
+    else
+      do sc0 <- expect 494 (find_subcommand c name);
+      match build_subcommand c (c_name sc0) with
+      | None => ROk st
+      | Some sc =>
+          if negb (assert_app sc) then RPanic 4407 else
+          let sub_st0 := if keep_state then mkPs matcher_new (cur_idx st) (fs_at st) (fs_skip st) else ps_new in
+          let finish (sub_st : ps) : res ps :=
+            ROk (st <| mt := (mt st) <| mt_sub := Some (c_name sc, into_inner (mt sub_st)) |> |>) in
+          match get_matches_with fuel' sc rest sub_st0 with
+          | ROk sub_st => finish sub_st
+          | RErr e sub_st => if is_set s_ignore_errors c then finish sub_st else RErr e st
+          | RPanic s => RPanic s
+          end
+      end in
+  match lr with
+  | LDone st => ROk st
+  | LSub name keep vaf st rest => after_sub name keep vaf st rest
+  | LHelpSub names st => RErr (help_walk c names) st
+  | LExternal name vals st =>
+      let vp := opt_default VPOsString (c_ext_vp c) in
+      let sc_m := start_custom_arg_m matcher_new (arg_new ext_id) SCmdLine in
+      let filled := fold_left (fun rm v =>
+                      do m <- rm;
+                      match vp_parse vp v with
+                      | Some k => RErr (mkerr c k []) st
+                      | None => expect 458 (add_val_to m ext_id v)
+                      end) vals (ROk sc_m) in
+      do m <- filled;
+      ROk (st <| mt := (mt st) <| mt_sub := Some (name, into_inner m) |> |>)
+  end.
+
+Lemma get_matches_with_unfold fuel' c toks st0 :
+  get_matches_with (S fuel') c toks st0 =
+  match cmdline_phase fuel' c toks st0 with
+  | RPanic s => RPanic s
+  | RErr e st =>
+      if is_set s_ignore_errors c then
+        let st1 := match add_env c st with ROk s => s | RErr _ s => s | RPanic _ => st end in
+        let st2 := match add_defaults c st1 with ROk s => s | RErr _ s => s | RPanic _ => st1 end in
+        match add_env c st, add_defaults c st1 with
+        | RPanic s, _ => RPanic s
+        | _, RPanic s => RPanic s
+        | _, _ => RErr e st2
+        end
+      else RErr e st
+  | ROk st =>
+      do st1 <- resolve_pending c st;
+      do st2 <- add_env c st1;
+      do st3 <- add_defaults c st2;
+      vres_to_res c (validate c (mt st3)) st3
+  end.
+Proof. reflexivity. Qed.
+
+(** the entries after the command-line phase are those the token loop left *)
+Lemma cmdline_phase_args fuel' c toks st0 st :
+  cmdline_phase fuel' c toks st0 = ROk st ->
+  exists lr st_l, parse_loop c toks (mkL PSValuesDone 1 false false) st0 = ROk lr
+    /\ mt_args (mt st) = mt_args (mt st_l) /\ mt_pending (mt st) = mt_pending (mt st_l)
+    /\ match lr with LDone s | LSub _ _ _ s _ | LExternal _ _ s | LHelpSub _ s => s = st_l end.
+Proof.
+  unfold cmdline_phase. destruct (parse_loop c toks _ st0) as [lr| |]; [|discriminate|discriminate].
+  cbn [rbind]. intros H. exists lr. destruct lr as [s|name keep vaf s rest|name vals s|names s].
+  - inversion H; subst. exists st. repeat split.
+  - exists s. destruct (is_set s_args_negate_subs c && vaf); [discriminate|].
+    destruct (find_subcommand c name) as [sc0|]; [|discriminate]. cbn [expect rbind] in H.
+    destruct (build_subcommand c (c_name sc0)) as [sc|]; [|inversion H; subst; repeat split].
+    destruct (negb (assert_app sc)); [discriminate|].
+    destruct (get_matches_with fuel' sc rest _) as [sub_st|e sub_st|x].
+    + inversion H; subst. repeat split.
+    + destruct (is_set s_ignore_errors c); [|discriminate]. inversion H; subst. repeat split.
+    + discriminate.
+  - exists s. cbn zeta in H. destruct (fold_left _ vals _) as [m| |]; [|discriminate|discriminate].
+    cbn [rbind] in H. inversion H; subst. repeat split.
+  - discriminate.
+Qed.
+
+Lemma resolve_pending_clears c st st1 : resolve_pending c st = ROk st1 -> mt_pending (mt st1) = None.
+Proof.
+  unfold resolve_pending. destruct (mt_pending (mt st)) as [p|] eqn:Ep.
+  - destruct (find_arg c (p_id p)) as [a|]; [|discriminate]. cbn [expect rbind].
+    destruct (react_core c (p_ident p) SCmdLine a (p_raw p) (p_trailing_idx p) _) as [[st2 pr]| |] eqn:Er; [|discriminate|discriminate].
+    cbn [rbind fst]. intros H; inversion H; subst st2. clear H.
+    rewrite react_core_unfold in Er. cbn [is_cmdline] in Er.
+    destruct (verify_num_args _ _ _ _); [|discriminate|discriminate]. cbn [rbind] in Er.
+    unfold react_tail in Er. destruct (delimit c a _ _) as [vs|]; [|discriminate]. cbn [expect rbind] in Er.
+    set (st0 := st <| mt := mt st <| mt_pending := None |> |>) in *.
+    assert (Hstore : forall m1 (sx : ps) vs' sy pr',
+      mt_pending m1 = None ->
+      (do m2 <- start_custom_arg c a SCmdLine m1;
+       do st' <- push_arg_values c a vs' (sx <| mt := m2 |>); ROk (st', PRValuesDone)) = ROk (sy, pr') ->
+      mt_pending (mt sy) = None).
+    { intros m1 sx vs' sy pr' Hm1 Hq.
+      destruct (start_custom_arg c a SCmdLine m1) as [m2| |] eqn:E1; [|discriminate|discriminate]. cbn [rbind] in Hq.
+      destruct (push_arg_values c a vs' _) as [s2| |] eqn:E2; [|discriminate|discriminate]. cbn [rbind] in Hq.
+      inversion Hq; subst. apply push_arg_values_spec in E2. destruct E2 as [_ [_ [P2 _]]]. rewrite P2. cbn.
+      clear -E1 Hm1. unfold start_custom_arg in E1. cbn [src_explicit] in E1.
+      assert (Hro : mt_pending (remove_overrides c a m1) = None).
+      { unfold remove_overrides.
+        assert (Hfold : forall l m, mt_pending m = None -> mt_pending (fold_left (fun m o => fst (mt_remove m o)) l m) = None).
+        { induction l as [|o t IH]; intros m Hm; [exact Hm|]. cbn [fold_left]. apply IH.
+          unfold mt_remove. destruct (fm_remove o (mt_args m)). exact Hm. }
+        apply Hfold. apply Hfold. exact Hm1. }
+      change (fold_left (group_step a SCmdLine) (groups_for_arg c (a_id a))
+                (ROk (start_custom_arg_m (remove_overrides c a m1) a SCmdLine)) = ROk m2) in E1.
+      apply group_fold_spec in E1. destruct E1 as [_ [P _]]. rewrite P. exact Hro. }
+    assert (Hrm : forall (sx : ps) i, mt_pending (mt sx) = None -> mt_pending (fst (mt_remove (mt sx) i)) = None).
+    { intros sx i Hx. unfold mt_remove. destruct (fm_remove i (mt_args (mt sx))). exact Hx. }
+    destruct (a_get_action a); try discriminate.
+    + (* Set *)
+      match type of Er with context [mt_remove (mt ?S) ?I] =>
+        pose proof (Hrm S I) as Hr; destruct (mt_remove (mt S) I) as [m1 removed] end.
+      cbn [fst] in Hr. destruct (removed && _); [discriminate|].
+      eapply Hstore in Er; [exact Er|]. apply Hr. destruct (true && is_cmdline SCmdLine && is_flag_ident (p_ident p)); reflexivity.
+    + (* Append *)
+      eapply Hstore in Er; [exact Er|]. destruct (is_cmdline SCmdLine && is_flag_ident (p_ident p)); reflexivity.
+    + match type of Er with context [mt_remove (mt ?S) ?I] =>
+        pose proof (Hrm S I) as Hr; destruct (mt_remove (mt S) I) as [m1 removed] end.
+      cbn [fst] in Hr. destruct (removed && _); [discriminate|].
+      eapply Hstore in Er; [exact Er|]. apply Hr. reflexivity.
+    + match type of Er with context [mt_remove (mt ?S) ?I] =>
+        pose proof (Hrm S I) as Hr; destruct (mt_remove (mt S) I) as [m1 removed] end.
+      cbn [fst] in Hr. destruct (removed && _); [discriminate|].
+      eapply Hstore in Er; [exact Er|]. apply Hr. reflexivity.
+    + match type of Er with context [mt_remove (mt ?S) ?I] =>
+        pose proof (Hrm S I) as Hr; destruct (mt_remove (mt S) I) as [m1 removed] end.
+      cbn [fst] in Hr. eapply Hstore in Er; [exact Er|]. apply Hr. reflexivity.
+  - intros H; inversion H; subst. exact Ep.
+Qed.
